@@ -106,8 +106,15 @@ impl Leg for Iter {
     }
 }
 
-/// bytes -> a valid UTF-8 string for the Python legs: ASCII kept (0..3 become 'N'), bytes >= 0x80
-/// become a two-byte character (so non-ASCII characters do occur)
+/// 128 code points worth meeting: low byte equal to a nucleotide letter (truncating casts), case mappings
+/// and compatibility / canonical decompositions that contain a nucleotide letter, look-alikes from other
+/// scripts, white space and zero-width characters, the ends of the UTF-8 length classes
+pub const UTF8_TABLE: [u32; 128] = [
+    0x141, 0x143, 0x147, 0x154, 0x155, 0x161, 0x163, 0x167, 0x174, 0x175, 0x4E41, 0x4E43, 0x4E47, 0x4E54, 0x4E55, 0x4E61, 0x4E63, 0x4E67, 0x4E74, 0x4E75, 0x1F441, 0x1F443, 0x1F447, 0x1F454, 0x100, 0x101, 0x102, 0x103, 0x200, 0x201, 0x202, 0x203, 0x1E97, 0x1E9A, 0xFB05, 0xFB06, 0x130, 0x212A, 0x212B, 0x149, 0x1F0, 0x1E96, 0x1E98, 0x1E99, 0xDF, 0xFB00, 0xFB01, 0xFF21, 0xFF23, 0xFF27, 0xFF34, 0xFF35, 0xFF41, 0xFF43, 0xFF47, 0xFF54, 0xFF55, 0x1D400, 0x1D402, 0x1D406, 0x1D413, 0x1D41A, 0x1D41C, 0x24B6, 0x24B8, 0x24BC, 0x24C9, 0x1D2C, 0x1D33, 0x1D40, 0xAA, 0xC0, 0xC1, 0xC2, 0xC3, 0xC4, 0xC5, 0xC7, 0xE0, 0xE1, 0xE7, 0xE9, 0xFA, 0xFC, 0x106, 0x107, 0x11E, 0x11F, 0x162, 0x163, 0x168, 0x169, 0x301, 0x308, 0x327, 0x391, 0x3A4, 0x3B1, 0x410, 0x421, 0x422, 0x430, 0x441, 0x443, 0xA0, 0x3000, 0x2028, 0x2029, 0x200B, 0x200D, 0xFEFF, 0xFFFD, 0x85, 0x1680, 0x2003, 0x80, 0xFF, 0x7FF, 0x800, 0xFFFF, 0x10000, 0x10FFFF, 0xD7FF, 0xE000, 0x100, 0x125, 0x14A, 0x16F,
+];
+
+/// bytes -> a valid UTF-8 string for the Python legs: ASCII kept (0..3 become 'N'), a byte >= 0x80
+/// becomes the character UTF8_TABLE[b - 0x80] (all of whose UTF-8 bytes are >= 0x80, i.e. ambiguous)
 pub fn utf8_safe(seq: &[u8]) -> Vec<u8> {
     let mut out = Vec::with_capacity(seq.len());
     for &b in seq {
@@ -116,7 +123,7 @@ pub fn utf8_safe(seq: &[u8]) -> Vec<u8> {
         } else if b < 0x80 {
             out.push(b);
         } else {
-            let c = char::from_u32(0x100 + (b as u32 - 0x80) * 3).unwrap();
+            let c = char::from_u32(UTF8_TABLE[(b - 0x80) as usize]).unwrap();
             let mut buf = [0u8; 4];
             out.extend_from_slice(c.encode_utf8(&mut buf).as_bytes());
         }
